@@ -111,6 +111,29 @@ class C17(PropBase):
             cases.append({"g": {"nodes": [0, 1, 2, 3, 4], "dir": [[0, 1], [1, 3], [2, 3], [3, 4]], "bid": [[1, 3], [2, 4], [3, 4]]},
                           "topo": [0, 1, 2, 3, 4], "topo2": [0, 2, 1, 3, 4], "T": [1, 2, 3, 4], "C": [1, 3], "pop": False})
         while len(cases) < n:
+            if rng.random() < 0.12:
+                # Q[T] handed over as ONE conditional term P(T | Z): Z are unconfounded root parents of T, so P(t | z) = P(t | do(z)) = Q[T]
+                k, m = rng.randint(2, 4), rng.randint(1, 2)
+                T = list(range(k)); Z = list(range(k, k + m))
+                order = list(T); rng.shuffle(order)
+                di = [[order[i], order[j]] for i in range(k) for j in range(i + 1, k) if rng.random() < 0.5]
+                bi = [[order[i], order[rng.randrange(i)]] for i in range(1, k)]          # a spanning tree of bidirected edges: one district
+                bi += [[a, b] for a in T for b in T if a < b and [a, b] not in bi and [b, a] not in bi and rng.random() < 0.25]
+                for z in Z:
+                    for t in rng.sample(T, rng.randint(1, k)):
+                        di.append([z, t])
+                g = {"nodes": Z + T, "dir": di, "bid": bi}
+                rng.shuffle(g["nodes"]); rng.shuffle(g["dir"])
+                topo = rand_topo(rng, g)
+                C = None
+                for _ in range(20):
+                    cand = sorted(rng.sample(T, rng.randint(1, k)))
+                    if len(districts(g, cand)) == 1 and (C is None or len(cand) < len(anc_in(g, T, cand)) < len(T)):
+                        C = cand
+                        if len(cand) < len(anc_in(g, T, cand)) < len(T):
+                            break
+                cases.append({"g": g, "topo": topo, "topo2": None, "T": sorted(T), "C": C or T[:1], "pop": rng.random() < 0.25, "condq": sorted(Z)})
+                continue
             g = GG.rand_admg(rng, 2, 6)
             if rng.random() < 0.4:  # large districts, sparse directed part: Lemma 4 with incomparable variables inside An(C)
                 g = GG.rand_admg(rng, 4, 6)
@@ -162,13 +185,19 @@ class C17(PropBase):
         topo_q = topo if qT_from is None else qT_from
         if qT_from is not None:
             joint = PP[Variable("pi1")](*tq) if case["pop"] else P(*tq)
-        try:
-            qT = compute_c_factor(district=[GG.V(v) for v in T], subgraph_variables=set(tq), subgraph_probability=joint, graph_topo=tq)
-        except Exception as ex:  # noqa: BLE001
-            return {"out": f"c-factor raised {type(ex).__name__}", "violation": f"compute_c_factor raised {type(ex).__name__}", "nontrivial": True,
-                    "features": ["cfactor-exception"], "term": "CCFactor [] [] EOne [] (EErr 3)", "key": "C17/crash"}
-        t1 = (f"CCFactor {c_list([OFF + v for v in T])} {c_list([OFF + v for v in g['nodes']])} {GE.c_expr(joint)} "
-              f"{c_list([OFF + v for v in topo_q])} {GE.c_expr(qT)}")
+        if case.get("condq"):
+            tch = [GG.V(v) for v in topo if v in T]
+            zs = [GG.V(z) for z in case["condq"]]
+            qT = (PP[Variable("pi1")] if case["pop"] else P)(*(tch[:-1] + [tch[-1] | zs]))
+            t1 = None
+        else:
+            try:
+                qT = compute_c_factor(district=[GG.V(v) for v in T], subgraph_variables=set(tq), subgraph_probability=joint, graph_topo=tq)
+            except Exception as ex:  # noqa: BLE001
+                return {"out": f"c-factor raised {type(ex).__name__}", "violation": f"compute_c_factor raised {type(ex).__name__}", "nontrivial": True,
+                        "features": ["cfactor-exception"], "term": "CCFactor [] [] EOne [] (EErr 3)", "key": "C17/crash"}
+            t1 = (f"CCFactor {c_list([OFF + v for v in T])} {c_list([OFF + v for v in g['nodes']])} {GE.c_expr(joint)} "
+                  f"{c_list([OFF + v for v in topo_q])} {GE.c_expr(qT)}")
         try:
             res = identify_district_variables(input_variables=frozenset(GG.V(v) for v in C), input_district=frozenset(GG.V(v) for v in T),
                                               district_probability=qT, graph=gr, topo=tv)
@@ -230,8 +259,8 @@ class C17(PropBase):
             violation, key = extra_violation, "C17/wrong-cfactor"
         return {"out": str(res) if res is not None else code, "violation": violation, "nontrivial": sorted(C) != sorted(T) or len(T) > 1,
                 "features": [f"n={len(g['nodes'])}", f"|T|={len(T)}", f"|C|={len(C)}", "pop" if case["pop"] else "plain",
-                             "expr" if code == 0 else ("fail" if code == 1 else f"exception:{exc}")],
-                "terms": [t1, t2] + extra_terms, "key": key}
+                             "expr" if code == 0 else ("fail" if code == 1 else f"exception:{exc}")] + (["Q[T]-given-as-conditional"] if case.get("condq") else []),
+                "terms": ([t1] if t1 else []) + [t2] + extra_terms, "key": key}
 
     def coq(self, case, res):
         ts = res.pop("terms", None)
